@@ -408,6 +408,11 @@ def _scan_pricing(cols, pick, counter):
 
 
 def run(case, obs):
+    _run(case, obs)
+    _LAST["hang"] = any(c == "hang" for c, _ in obs.violations)
+
+
+def _run(case, obs):
     kind = case["kind"]
     dem = case["dem"]
     if kind == "cs":
@@ -472,7 +477,12 @@ def run(case, obs):
 
 # ---------------------------------------------------------------- minimisation / findings
 
+_LAST = {"hang": False}
+
+
 def shrink(case):
+    if _LAST["hang"]:
+        return  # every replay of a non-returning case costs the full step budget: keep the witness as it is
     dem = case["dem"]
     m = len(dem)
     key = "sizes" if case["kind"] in ("cs", "custom-cs") else None
